@@ -1,9 +1,99 @@
-/- Driver operations for C03 (stub: to be filled by the property's model). -/
+/- Driver operations for C03: the acceptance gate of `Model/Gate.lean` replayed on observed errors. -/
 import PrecondVerif.Kit.Proto
+import PrecondVerif.Model.Gate
 
 namespace PrecondVerif.Drv.C03
-open Lean PrecondVerif.Proto
+open Lean PrecondVerif.Proto PrecondVerif.Gate
 
-def ops : List Op := []
+def xfToJson : XF → Json
+  | .fin q => obj [("cls", Json.str "fin"), ("q", ratToJson q)]
+  | .pinf => obj [("cls", Json.str "pinf")]
+  | .ninf => obj [("cls", Json.str "ninf")]
+  | .nan => obj [("cls", Json.str "nan")]
+
+def asBits (j : Json) : R Nat := do parseHex (← asStr j)
+
+def getXF32 (j : Json) (k : String) : R XF := do pure (XF.ofBits32 (← asBits (← field j k)))
+def getXF64 (j : Json) (k : String) : R XF := do pure (XF.ofBits64 (← asBits (← field j k)))
+
+/-- the three modes differ only in how the gate picks between candidate and stored value -/
+inductive Mode where
+  | replicated | quantized | sharded
+
+def parseMode : String → R Mode
+  | "replicated" => pure .replicated
+  | "quantized" => pure .quantized
+  | "sharded" => pure .sharded
+  | s => throw s!"unknown mode {s}"
+
+/-- replay one slot on tokens: the candidate of step `t` is token `t+1`, the statistics slice of
+step `t` is token `1000000+t`, the initial preconditioner is token `0`. -/
+def traceWith {π : Type} [BEq π] (sel : Selector π) (tok : Nat → π) (show_ : π → Json)
+    (thr : XF) (itv : Nat) (init : XF) (errs : List XF) : Json :=
+  let rec go (t : Nat) (s : Slot π) (es : List XF) (acc : Array Json) : Array Json :=
+    match es with
+    | [] => acc
+    | e :: es =>
+      let i : Inp π := { cand := tok (t + 1), err := e, junk := tok (1000000 + t) }
+      let s' := slotStep sel thr itv t s i
+      let o := obj [
+        ("perform", Json.bool (performStep itv t)),
+        ("kept", Json.bool (s'.precond == s.precond)),
+        ("stored", show_ s'.precond),
+        ("err", xfToJson s'.err)]
+      go (t + 1) s' es (acc.push o)
+  Json.arr (go 0 { precond := tok 0, err := init } errs #[])
+
+def slotTrace (m : Mode) (thr : XF) (itv : Nat) (init : XF) (errs : List XF) : Json :=
+  match m with
+  | .replicated =>
+      traceWith (π := Nat) select (fun t => t) (fun p => natsToJson [p]) thr itv init errs
+  | .quantized =>
+      traceWith (π := Nat × Nat × Nat) selectTriple (fun t => (t, t, t))
+        (fun p => natsToJson [p.1, p.2.1, p.2.2]) thr itv init errs
+  | .sharded =>
+      traceWith (π := Vector Nat 2) selectWhere (fun t => #v[t, t]) (fun p => natsToJson p.toList)
+        thr itv init errs
+
+def ops : List Op := [
+  ("xf_decode", fun j => do
+    let b32 ← asListOf asBits (fieldD j "bits32" (Json.arr #[]))
+    let b64 ← asListOf asBits (fieldD j "bits64" (Json.arr #[]))
+    pure (obj [("v32", listToJson (fun n => xfToJson (XF.ofBits32 n)) b32),
+               ("v64", listToJson (fun n => xfToJson (XF.ofBits64 n)) b64)])),
+  ("xf_arith", fun j => do
+    let a ← getXF64 j "a"
+    let b ← getXF64 j "b"
+    pure (obj [("add", xfToJson (a + b)), ("sub", xfToJson (a - b)), ("mul", xfToJson (a * b)),
+               ("ge", Json.bool (a.ge b)), ("lt", Json.bool (a.lt b)), ("isnan", Json.bool a.isNaN),
+               ("isfinite", Json.bool a.isFinite)])),
+  ("gate", fun j => do
+    let e ← getXF32 j "err"
+    let thr ← getXF32 j "thr"
+    pure (obj [("skip", Json.bool (skip e thr)),
+               ("select", toJson (select e thr (1 : Nat) 0)),
+               ("triple", let r := selectTriple e thr ((1 : Nat), (1 : Nat), (1 : Nat)) (0, 0, 0)
+                          natsToJson [r.1, r.2.1, r.2.2]),
+               ("where", natsToJson (selectWhere e thr (#v[1, 1] : Vector Nat 2) #v[0, 0]).toList)])),
+  ("blend", fun j => do
+    -- `pred*old + (1-pred)*new` at XF (exact) and at Float, and the select it replaced
+    let e ← getXF32 j "err"
+    let thr ← getXF32 j "thr"
+    let o ← getXF64 j "old"
+    let n ← getXF64 j "new"
+    let fo ← asFloat (← field j "old")
+    let fn ← asFloat (← field j "new")
+    let fp : Float := skipAs e thr
+    pure (obj [("arith", xfToJson (arithGate e thr n o)), ("select", xfToJson (select e thr n o)),
+               ("arith_float", floatToJson (arithBlend fp fo fn))])),
+  ("slot_trace", fun j => do
+    let m ← parseMode (← getStr j "mode")
+    let thr ← getXF32 j "thr"
+    let itv ← getNat j "itv"
+    let init ← getXF32 j "init_err"
+    let errs ← asListOf asBits (← field j "errs")
+    if itv = 0 then throw "itv must be >= 1"
+    pure (obj [("steps", slotTrace m thr itv init (errs.map XF.ofBits32))]))
+]
 
 end PrecondVerif.Drv.C03
